@@ -321,7 +321,28 @@ pub fn run(ctx: &Ctx, rep: &mut Report) {
         }
         lg.msg(rep, &bits.to_bytes(), br.name);
     }
-    // binary data of 118/119/120 bytes, texts of 19/20/21/22 characters (with/without the
+    // (5b) every text field of every layout within capacity with the text shapes of C13 (padding
+    // mixes, one character on padding, dictionary words, trim corners): the trimming rule is
+    // the same code in every build only as long as nobody adds a build-specific short cut
+    for b in gen::BRANCHES.iter() {
+        let fs = super::c04::fields_of(b, &mut r, Some(13));
+        for f in &fs {
+            let k = (f.width / 6) as usize;
+            if k == 0 || k > 20 {
+                continue;
+            }
+            for (si, (_name, chars)) in super::c13::shapes(k, &mut r).into_iter().enumerate() {
+                let mut bits = gen::gen_message(b, &mut r);
+                if !ctx.thorough() && si % 2 == 1 && k > 10 {
+                    continue;
+                }
+                for (i, c) in chars.iter().enumerate() {
+                    bits.put(f.start as usize + 6 * i, 6, *c as u64);
+                }
+                lg.msg(rep, &bits.to_bytes(), "text-shape");
+            }
+        }
+    }
     // padding-induced extra character), lists with 4, 5, 6 elements present
     for _ in 0..ctx.budget(200, 10_000) {
         for (t, hdr) in [(6u8, 11usize), (8, 7), (17, 15)] {
